@@ -37,7 +37,8 @@ MANIFEST = dict(
          "of functions with monomorphic signatures; no list literals) over monomorphic environments: acceptance plus a "
          "solver solution imply, in every well-sorted instance of the solution, the declarative dimensional analysis "
          "has_ty of Dim/Sem.v at exactly the meaning of the inferred (and of the reported) type, and for annotated "
-         "definitions that the annotation denotes the derived dimension. NOT proved: accept-soundness for polymorphic "
+         "definitions that the annotation denotes the derived dimension; C02_canonical_form — every factor list produced by "
+         "try_canonicalize is strictly sorted with non-zero exponents and canonicalisation is idempotent. NOT proved: accept-soundness for polymorphic "
          "environment entries, function definitions/generalisation and lists; C02_reject_complete; solver "
          "termination/mgu; idempotence of the returned substitution. Those clauses rest on the ties: accept/reject, the "
          "TypeCheckError variant and the raw type scheme of every statement are compared between model and "
